@@ -97,6 +97,7 @@ type Block struct {
 	Flags    map[string]bool // pure, lemma, trusted, overflow, may-diverge, panics-never, opaque, inline
 	Modifies []string
 	Fuel     int
+	PkgName  string
 	// resolved
 	RecvName   string
 	RecvType   string // as written, e.g. "Set" or "*Set"
@@ -110,9 +111,12 @@ type Block struct {
 }
 
 func (b *Block) QualName() string {
-	short := b.Pkg
-	if i := strings.LastIndex(short, "/"); i >= 0 {
-		short = short[i+1:]
+	short := b.PkgName
+	if short == "" {
+		short = b.Pkg
+		if i := strings.LastIndex(short, "/"); i >= 0 {
+			short = short[i+1:]
+		}
 	}
 	if b.RecvType != "" {
 		return short + "." + strings.TrimPrefix(b.RecvType, "*") + "." + b.FuncName
@@ -352,6 +356,7 @@ func parseBlocks(fset *token.FileSet, path string, src []byte, pkgPath string) (
 		var cur *Block
 		flush := func() {
 			if cur != nil {
+				cur.PkgName = f.Name.Name
 				blocks = append(blocks, cur)
 			}
 			cur = nil
@@ -359,6 +364,9 @@ func parseBlocks(fset *token.FileSet, path string, src []byte, pkgPath string) (
 		fd := docOf[cg]
 		for _, c := range cg.List {
 			text := c.Text
+			if strings.HasPrefix(text, "// @") { // gofmt's spelling inside doc comments
+				text = "//@" + text[4:]
+			}
 			if !strings.HasPrefix(text, "//@") {
 				continue
 			}
